@@ -154,6 +154,70 @@ def ask_batched(drv, reqs, n=100):
     return out
 
 
+def ident_fn(td):
+    """worker function of the shuffle stream: the chunk itself (its "r" entry holds the source row of every row)"""
+    return td
+
+
 def affine_fn(td):
     """slice-wise worker function for the extended map stream: every leaf x -> 2*x + 1"""
     return td.apply(lambda x: x * 2 + 1)
+
+
+# ------------------------------------------------------------------------------------------- hard deadline
+import contextlib as _contextlib
+
+
+@_contextlib.contextmanager
+def hard_deadline(seconds, what):
+    """Last-resort guard around a whole stream that uses pools / threads / subprocesses: when it has not finished after `seconds`
+    (a SIGALRM-based `time_limit` cannot fire while the main thread sits in a C call, and `Pool.terminate` / `ThreadPoolExecutor.__exit__`
+    can themselves wait for ever on a stuck worker), kill every child process and leave with exit code 2 (INFRA: no verdict)."""
+    import os
+    import sys
+    import threading
+
+    def fire():
+        try:
+            import multiprocessing
+            import multiprocessing.process as mpp
+            import subprocess
+            import time
+
+            def _no_start(self):   # a pool's maintenance thread starts a replacement for every worker that dies
+                raise RuntimeError("the check is shutting down")
+            mpp.BaseProcess.start = _no_start
+            for _ in range(2):
+                for p in multiprocessing.active_children():
+                    try:
+                        p.kill()
+                    except Exception:  # noqa: BLE001
+                        pass
+                # every direct child (pool workers of any start method, the Lean driver, probes)
+                subprocess.run(["pkill", "-KILL", "-P", str(os.getpid())], timeout=10, capture_output=True)
+                time.sleep(0.2)
+        except Exception:  # noqa: BLE001
+            pass
+        print(f"INFRA: hard deadline: stream {what} did not finish within {seconds}s (stuck worker or overloaded machine); no verdict",
+              file=sys.stderr, flush=True)
+        os._exit(2)
+
+    t = threading.Timer(seconds, fire)
+    t.daemon = True
+    t.start()
+    try:
+        yield
+    finally:
+        t.cancel()
+
+
+def single_threaded_torch():
+    """torch's intra-op thread pool must not be started in the process that later forks pool workers: a forked worker that then
+    runs a parallel kernel (e.g. `map(worker_threads=2)`) dead-locks in the OpenMP runtime it inherited (reproduced: every worker in
+    futex wait, `imap.next()` never returns). Called first thing by the checks that fork."""
+    import torch
+    torch.set_num_threads(1)
+    try:
+        torch.set_num_interop_threads(1)
+    except RuntimeError:
+        pass
